@@ -11,9 +11,9 @@ git apply $O/patch.diff || { echo "$ID m$K: patch does not apply"; exit 1; }
 suite=$(cargo test --offline --no-fail-fast -j 6 2>&1 | grep -E "^test result" | awk '{p+=$4; f+=$6} END {print p" passed "f" failed"}')
 if [ -f $O/demo.rs ]; then cp $O/demo.rs tests/demo.rs; fi
 if [ -f $O/demo.diff ]; then git apply $O/demo.diff; fi
-with=$(cargo test --offline --no-fail-fast -j 6 --test demo 2>&1 | grep -E "^test result" | awk '{p+=$4; f+=$6} END {print p" passed "f" failed"}')
+with=$(cargo test --offline --no-fail-fast -j 6 --test demo $FEAT 2>&1 | grep -E "^test result" | awk '{p+=$4; f+=$6} END {print p" passed "f" failed"}')
 git checkout -q -- . ; 
-without=$(cargo test --offline --no-fail-fast -j 6 --test demo 2>&1 | grep -E "^test result" | awk '{p+=$4; f+=$6} END {print p" passed "f" failed"}')
+without=$(cargo test --offline --no-fail-fast -j 6 --test demo $FEAT 2>&1 | grep -E "^test result" | awk '{p+=$4; f+=$6} END {print p" passed "f" failed"}')
 rm -f tests/demo.rs
 echo "$ID m$K: suite[$suite] demo-with[$with] demo-without[$without]"
 mkdir -p $D && cp $O/patch.diff $D/ && cp $O/demo.rs $D/ 2>/dev/null; cp $O/README.md $D/ 2>/dev/null; cp $O/demo*.diff $D/ 2>/dev/null
